@@ -1,4 +1,5 @@
 import TsVerif.C07.Model
+import TsVerif.C07.Pools
 import TsVerif.Common.Tree
 /-!
 # C07 — judges evaluated on what the real library produced
@@ -56,5 +57,44 @@ def accessesOf (a : Arr) : List String → Access
   | _ => []
 
 def inBoundsB (cap : Nat) (acc : Access) : Bool := acc.all fun r => r.1 ≤ r.2 && r.2 ≤ cap
+
+
+/-! ## protocol steps of the pool / capture-list / add_link models -/
+
+/-- One `pw` operation on the model: returns the new world and the object it concerns. -/
+def applyPw (w : PoolW) : List String → PoolW × String
+  | ["A"] => let r := w.alloc; (r.1, toString r.2)
+  | ["F", x] => (w.free (natOf x), x)
+  | _ => (w, "-")
+
+def poolOkB (w : PoolW) : Bool :=
+  decide (w.pool.length ≤ w.cap) && (w.pool ++ w.live ++ w.released).Nodup
+
+def applyCl (p : CapPool) : List String → CapPool × String
+  | ["A"] => let r := p.acquire; (r.1, match r.2 with | some i => toString i | none => "NONE")
+  | ["R", id] => (p.release (natOf id), id)
+  | ["M", m] => ({ p with max := natOf m }, "-")
+  | ["X"] => (p.reset, "-")
+  | ["N"] => ({ inUse := [], max := 4294967295, freeCount := 0 }, "-")
+  | _ => (p, "-")
+
+def capOkB (p : CapPool) : Bool := p.freeCount == unusedCount p.inUse
+
+/-- `al` operations on the graph model (all links carry the same, equivalent, subtree). -/
+def applyAl (g : Graph) : List String → Graph
+  | ["C"] => []
+  | ["N", prev, st] =>
+    let links : List Link := match prev.toInt? with
+      | some (Int.ofNat p) => if p < g.length then [{ node := p, sub := 0, prec := 0 }] else []
+      | _ => []
+    let pos := match links with
+      | l :: _ => (g.getD l.node default).pos + 1
+      | [] => 0
+    g ++ [{ links, state := natOf st, pos, cost := 0 }]
+  | ["L", a, b] => addLink 64 g (natOf a) { node := natOf b, sub := 0, prec := 0 }
+  | _ => g
+
+def showGraph (g : Graph) : String :=
+  " ".intercalate (g.zipIdx.map fun (n, i) => s!"{i}:" ++ ",".intercalate (n.links.map fun l => toString l.node))
 
 end TsVerif.C07
